@@ -499,6 +499,8 @@ func c04Chains(p *core.Program, r *core.Report) {
 	// Save writes them (C08.R2); otherwise later runs skip packages that were never generated and the file set differs
 	chainRules(p, r, "R5", "C02", []string{"C02.R4", "C02.R5"}, "gengo.sum is recorded only after every package was generated")
 	chainRules(p, r, "R6", "C08", []string{"C08.R2"}, "the recorded sums are changed by nothing but the load and Save")
+	// round 8: a file effect outside the inventory (a removal on the cached path) changes the hashed directory after the sums were taken
+	chainRules(p, r, "R7", "C07", []string{"C07.A1", "C07.R2"}, "nothing but the writer, the stale-output removal and Save touches the file system")
 }
 
 func runC04(p *core.Program, r *core.Report) {
